@@ -177,6 +177,77 @@ impl InferShapes for Cast {
     }
 }
 
+/// Convert the elements of `input` to bools, represented as i32 values.
+///
+/// Following ONNX and NumPy, every non-zero element (including NaN) converts
+/// to true and zeros convert to false.
+fn cast_to_bool(pool: &BufferPool, input: ValueView) -> Result<Tensor<i32>, OpError> {
+    let output = match input {
+        ValueView::FloatTensor(t) => t.map_in(pool, |x| i32::from(*x != 0.)),
+        ValueView::Int32Tensor(t) => t.map_in(pool, |x| i32::from(*x != 0)),
+        ValueView::Int8Tensor(t) => t.map_in(pool, |x| i32::from(*x != 0)),
+        ValueView::UInt8Tensor(t) => t.map_in(pool, |x| i32::from(*x != 0)),
+        ValueView::Sequence(_) => return Err(OpError::UnsupportedType),
+    };
+    Ok(output)
+}
+
+/// Cast elements of a tensor to bool.
+///
+/// This implements the ONNX `Cast` operator when the target type is bool.
+/// RTen represents bools as i32 tensors, but a cast to bool converts elements
+/// differently than a cast to i32 (see [`Cast`]): the result is 1 for every
+/// non-zero element and 0 otherwise, whereas a cast of a float to i32 discards
+/// the fractional part.
+#[derive(Debug)]
+pub struct CastToBool {}
+
+impl Operator for CastToBool {
+    fn name(&self) -> &str {
+        "CastToBool"
+    }
+
+    fn max_inputs(&self) -> Option<usize> {
+        Some(1)
+    }
+
+    fn run(&self, ctx: &OpRunContext) -> Result<OutputList, OpError> {
+        let input = ctx.inputs().require(0)?;
+        cast_to_bool(ctx.pool(), input).into_op_result()
+    }
+
+    fn in_place_inputs(&self) -> BitSet<u16> {
+        // This can run in place if the input is already an i32 tensor.
+        BitSet::from_indices([0])
+    }
+
+    fn run_in_place(
+        &self,
+        in_place: InPlaceInputs,
+        ctx: &OpRunContext,
+    ) -> Result<OutputList, OpError> {
+        match in_place.into_single() {
+            Value::Int32Tensor(mut t) => {
+                t.apply(|x| i32::from(*x != 0));
+                t.into_op_result()
+            }
+            input => {
+                let converted = cast_to_bool(ctx.pool(), input.as_view())?;
+                input.add_to_pool(ctx.pool());
+                converted.into_op_result()
+            }
+        }
+    }
+
+    fn as_infer_shapes(&self) -> Option<&dyn InferShapes> {
+        Some(&UnaryOp)
+    }
+
+    fn output_types(&self, _ctx: &OutputTypesContext) -> Option<OutputTypeList> {
+        Some([OutputType::Fixed(ValueType::Tensor(DataType::Int32))].into())
+    }
+}
+
 #[derive(Debug)]
 pub struct CastLike {}
 
@@ -227,7 +298,7 @@ mod tests {
     use rten_tensor::Tensor;
     use rten_testing::TestCases;
 
-    use super::{Cast, CastLike};
+    use super::{Cast, CastLike, CastToBool};
     use crate::operator::{InputList, OperatorExt};
     use crate::value::{DataType, Value, ValueType};
 
@@ -314,6 +385,49 @@ mod tests {
                     .unwrap();
                 assert_eq!(result, case.expected);
             }
+        })
+    }
+
+    #[test]
+    fn test_cast_to_bool() {
+        #[derive(Debug)]
+        struct Case {
+            input: Value,
+            expected: Tensor<i32>,
+        }
+
+        let cases = [
+            // Floats. Every non-zero value, including fractions that truncate
+            // to zero and NaN, is true.
+            Case {
+                input: Tensor::from([0., -0., 0.25, -0.5, 1., -3.5, f32::NAN, f32::INFINITY])
+                    .into(),
+                expected: Tensor::from([0, 0, 1, 1, 1, 1, 1, 1]),
+            },
+            Case {
+                input: Tensor::from([0, 1, -1, 5, i32::MIN]).into(),
+                expected: Tensor::from([0, 1, 1, 1, 1]),
+            },
+            Case {
+                input: Tensor::from([0i8, 1, -1, i8::MIN]).into(),
+                expected: Tensor::from([0, 1, 1, 1]),
+            },
+            Case {
+                input: Tensor::from([0u8, 1, 2, u8::MAX]).into(),
+                expected: Tensor::from([0, 1, 1, 1]),
+            },
+        ];
+
+        cases.test_each(|case| {
+            let cast_op = CastToBool {};
+
+            let result: Tensor<i32> = cast_op.run_simple(&case.input).unwrap();
+            assert_eq!(result, case.expected);
+
+            let result: Tensor<i32> = cast_op
+                .run_simple_in_place(case.input.clone(), InputList::new())
+                .unwrap();
+            assert_eq!(result, case.expected);
         })
     }
 
